@@ -34,6 +34,7 @@ package objectcore
 //@   ensures [operands_normalised] err == nil ==> normDigits(da) && normDigits(db) && (na ==> da[0] != 48) && (nb ==> db[0] != 48)
 
 //@ func parseNumericFilterValue
+//@   property C03
 //@   opt wide=272
 //@   ensures [normalised] err == nil ==> (res0.neg ==> leval(res0.mag, 0, 4) != 0)
 
